@@ -24,7 +24,7 @@ var Leaves = []reflect.Type{
 // Statics are the hand-written struct types (embedding, tags, recursion).
 var Statics = []reflect.Type{
 	T[EmbedVal](), T[EmbedPtr](), T[EmbedUnexpVal](), T[EmbedUnexpPtr](), T[EmbedConflict](), T[EmbedAmbiguous](), T[EmbedTaggedWins](), T[EmbedDeep](),
-	T[EmbedMarshaler](), T[EmbedTextMarshalerPtr](), T[EmbedNonStruct](), T[EmbedPtrNonStruct](), T[EmbedIface](), T[EmbedTwoPtr](), T[Tags](), T[CaseFields](), T[Recursive](), T[Deep](),
+	T[EmbedMarshaler](), T[EmbedTextMarshalerPtr](), T[EmbedNonStruct](), T[EmbedPtrNonStruct](), T[EmbedIface](), T[EmbedTwoPtr](), T[EmbedTagDepths](), T[DupTagDirect](), T[DupTagEmbedded](), T[NonASCIIKeys](), T[Tags](), T[CaseFields](), T[Recursive](), T[Deep](),
 }
 
 var mapKeys = []reflect.Type{T[string](), T[NamedString](), T[int](), T[int8](), T[uint64](), T[KeyT](), T[KeyPT](), T[bool](), T[float64](), T[VTInt]()}
@@ -92,7 +92,7 @@ func LongNameStruct() reflect.Type {
 }
 
 var (
-	strDomain = []string{"a", "", "<&>", "\"\\/", "  ", "\x00\x1f\x7f", "\xff\xfe", "héllo wörld", strings.Repeat("x", 7), strings.Repeat("y", 8), strings.Repeat("z", 9) + "\"", strings.Repeat("w", 40)}
+	strDomain = []string{"a", "", "<&>", "\"\\/", "  ", "\x00\x1f\x7f", "\xff\xfe", "héllo wörld", strings.Repeat("x", 7), strings.Repeat("y", 8), strings.Repeat("z", 9) + "\"", strings.Repeat("w", 40), "a\ufffdb\u2028"}
 	f64Domain = []float64{1, 0, -1.5, 1e21, 1e20, 1e-6, 1e-7, 123456789.125, math.MaxFloat64, math.SmallestNonzeroFloat64, math.NaN(), math.Inf(1), math.Copysign(0, -1), 100}
 )
 
@@ -126,7 +126,7 @@ func Domain(t reflect.Type, depth int) []reflect.Value {
 		return out
 	case T[any]():
 		x := 5
-		for _, v := range []any{map[string]any{"b": 1, "a": nil, "<": "x"}, nil, 1, "s<", 1.5, true, []any{1, "a", nil}, VMStruct{3}, &PMStruct{4}, PMStruct{4}, &x, Base{ID: 1}, []byte("hi"), json.Number("7"), map[int]string{2: "b", 10: "a"}, float32(0.1), uint8(200)} {
+		for _, v := range []any{map[string]any{"b": 1, "a": nil, "<": "x"}, nil, (*int)(nil), new(*int), 1, "s<", 1.5, true, []any{1, "a", nil}, VMStruct{3}, &PMStruct{4}, PMStruct{4}, &x, Base{ID: 1}, []byte("hi"), json.Number("7"), map[int]string{2: "b", 10: "a"}, float32(0.1), uint8(200), (*Base)(nil), map[string]any(nil), []any(nil)} {
 			if v == nil {
 				out = append(out, zero)
 			} else {
